@@ -1,5 +1,5 @@
 //! Stream `cli`: the command-line programs of the workspace (`dictgen`, `compile`, `tokenize`,
-//! `map`), built from /repo's current tree, run as real processes on files and compared with the
+//! `map`, `reorder`, `train`, and the example `mecab_smalldic`), built from /repo's current tree, run as real processes on files and compared with the
 //! library calls they are documented to wrap.  The programs are the glue around the modelled core
 //! (option handling, file naming, the ORDER of the library calls, zstd framing, output formats).
 //!
@@ -278,6 +278,47 @@ pub fn run(seed: u64, n: usize, out: &mut dyn Write) {
                 continue;
             }
         };
+
+        // ---- train (the program that produced nothing so far: same files, same options, then dictgen on ITS model)
+        if env.bin.join("train").exists() && rng.below(2) == 0 {
+            write(&env, "seed_lex.csv", s.lex.as_bytes());
+            write(&env, "seed_unk.def", s.unk.as_bytes());
+            write(&env, "t_char.def", s.chardef.as_bytes());
+            write(&env, "feature.def", s.feature_def.as_bytes());
+            write(&env, "rewrite.def", s.rewrite_def.as_bytes());
+            write(&env, "corpus.txt", s.corpus.as_bytes());
+            let (st_t, _) = run_bin(
+                &env,
+                "train",
+                &["-l".into(), p(&env, "seed_lex.csv"), "-u".into(), p(&env, "seed_unk.def"), "-t".into(), p(&env, "corpus.txt"),
+                  "-c".into(), p(&env, "t_char.def"), "-f".into(), p(&env, "feature.def"), "-r".into(), p(&env, "rewrite.def"),
+                  "-o".into(), p(&env, "trained.zst"), format!("--lambda={reg}"), format!("--max-iter={iters}")],
+                None,
+            );
+            if st_t != "ok" {
+                diffs.push(format!("train-status:{st_t}/ok"));
+            } else {
+                match unzstd_file(&env, "trained.zst") {
+                    None => diffs.push("train-not-zstd".to_string()),
+                    Some(img) => {
+                        // the model written by the program generates the same files as the model trained in-process
+                        // (image bytes depend on hash-map iteration order: compare what the model MEANS)
+                        let (_, g_t) = crate::trainer::observe_gen(&img, None);
+                        let mut m1 = train(&s, reg, iters);
+                        let g_lib = m1.as_mut().and_then(generate);
+                        let same = match (&g_t, &g_lib) {
+                            (Some(Ok(a)), Some(Ok(b))) => same_files(a, b),
+                            (Some(Err(())), Some(Err(()))) => true,
+                            (None, None) => true,
+                            _ => false,
+                        };
+                        if !same {
+                            diffs.push("train-model-differs".to_string());
+                        }
+                    }
+                }
+            }
+        }
 
         // ---- compile (matrix)
         write(&env, "char.def", s.chardef.as_bytes());
